@@ -28,9 +28,9 @@ struct StepDef {
     op: Op,
 }
 
-/// One representative per mutation kind (update, archive, tombstone,
-/// retract, supersede, merge, schema activation, create under the new schema).
-const CORE: [&str; 8] = ["rename-a", "archive-b", "tombstone-d", "retract", "supersede", "merge-b-into-a", "toggle-schema", "widget"];
+/// One representative per mutation kind that rewrites existing elements
+/// (update, archive, retract, supersede, merge) plus schema activation.
+const CORE: [&str; 6] = ["rename-a", "archive-b", "retract", "supersede", "merge-b-into-a", "toggle-schema"];
 
 fn alphabet() -> Vec<StepDef> {
     let k = |name, text| StepDef { name, op: Op::Kml(text) };
@@ -226,7 +226,7 @@ fn replay_json(path: &[usize], steps: &[StepDef]) -> Json {
     })
 }
 
-fn run_path(content: &Content, path: &[usize], steps: &[StepDef], battery: &[Q]) -> PathReport {
+fn run_path(content: &Content, path: &[usize], steps: &[StepDef], battery: &[Q], quick: bool) -> PathReport {
     let nx = Nx::open(content);
     let mut report = PathReport { path: path.to_vec(), all_committed: true, ..Default::default() };
     let journal = nx.q("HISTORY SPACE");
@@ -292,7 +292,11 @@ fn run_path(content: &Content, path: &[usize], steps: &[StepDef], battery: &[Q])
         // only when no later transaction carries the same (ms) timestamp.
         let ambiguous = point.at.is_empty()
             || rows.iter().any(|r| r["space_seq"].as_u64().unwrap_or(0) > point.seq && r["committed_at"].as_str().unwrap_or("") <= point.at.as_str());
-        if ambiguous {
+        if quick && point.after_step != "seed" {
+            // quick tier: only the seed point (stamped before this Nexus was
+            // opened, hence never ambiguous), so the counts do not depend on
+            // whether two commits happened to share a millisecond
+        } else if ambiguous {
             report.time_skipped += 1;
         } else {
             coordinates.push(("time", format!(r#" AS OF TIME "{}""#, point.at)));
@@ -386,7 +390,7 @@ fn main() {
             .iter()
             .map(|n| steps.iter().position(|s| Some(s.name) == n.as_str()).expect("step name"))
             .collect();
-        let report = run_path(content, &path, &steps, &battery);
+        let report = run_path(content, &path, &steps, &battery, false);
         println!("replay: {:?} -> {:?}", path.iter().map(|i| steps[*i].name).collect::<Vec<_>>(), report.labels);
         for v in report.violations {
             run.violation(v);
@@ -429,7 +433,8 @@ fn main() {
                 run.cap_hit(&format!("time budget: stopped inside depth {depth} after {done}/{total} histories"));
                 break 'levels;
             }
-            let reports = util::par_map(chunk.to_vec(), threads, |path| run_path(content, &path, &steps, &battery));
+            let quick = run.tier == vcore::Tier::Quick;
+            let reports = util::par_map(chunk.to_vec(), threads, |path| run_path(content, &path, &steps, &battery, quick));
             for report in reports {
                 run.add("traces_validated_against_impl", 1);
                 run.add("states", 1);
@@ -469,12 +474,12 @@ fn main() {
     run.set("alphabet", json!(steps.iter().map(|s| s.name).collect::<Vec<_>>()));
     run.set("comparisons_by_coordinate", json!(by_kind));
     run.rule(
-        "HIST: all histories over the step alphabet from the seeded Space (quick: whole alphabet to depth 2, the 8 kind-representatives CORE at depth 3; thorough: whole alphabet at every depth), a history being extended only while every step commits \
+        "HIST: all histories over the step alphabet from the seeded Space (quick: whole alphabet to depth 2, the 6 kind-representatives CORE at depth 3; thorough: whole alphabet at every depth), a history being extended only while every step commits \
          (refused / no_effect steps are executed and replayed after, then pruned); the battery is recorded live after the seed and after \
          every commit, and after the LAST statement of each history every recording is replayed AS OF SEQ (whole battery) and \
          AS OF TX / AS OF TIME (3 whole-kind queries + META); distinct = (history, last outcome); nontrivial = recorded answer was non-empty",
     );
-    run.assume("commit timestamps are wall-clock ms (chrono::Utc::now, not the verif clock): AS OF TIME is replayed only for points whose timestamp is strictly below every later transaction's (skips are counted)");
+    run.assume("commit timestamps are wall-clock ms (chrono::Utc::now, not the verif clock): AS OF TIME is replayed only for points whose timestamp is strictly below every later transaction's (skips are counted); in the quick tier only for the seed point");
     run.assume("belief queries are pinned with FOR TIME; the replay compares the `result` of the response (plus error code), not the response envelope");
     run.finish();
 }
